@@ -1,3 +1,4 @@
+import CfbVerif.Spec.Consts
 import CfbVerif.Dir.Iter
 import CfbVerif.Dir.Listing
 import CfbVerif.Raw.Read
